@@ -955,6 +955,8 @@ def cases(tier):
         cs.append(interpolate_case(T, Q))
         cs.append(axis_angle_general_case(T, Q))
     cs += canaries()
+    from rules import narrow
+    cs += narrow.cases(cs, 'C09')
     return cs
 
 
